@@ -676,7 +676,7 @@ def run_b17(chk, repo):
     from sa.report import VERIF
     from rules.C02 import eval_cond
     B17 = chk.rule('B17', 'for every closed-form (ADVAN, TRANS) pair pharmpy selects, update_needed_pk_parameters names every '
-                          'PK parameter PREDPP reads for it (K excepted: it keeps its name in every ADVAN)', floor=10)
+                          'PK parameter PREDPP reads for it', floor=10)
     spec = json.loads((VERIF / 'specs/predpp.json').read_text())
     um = repo.module(f'{NM}.update')
     f = um.functions.get('update_needed_pk_parameters')
@@ -725,7 +725,7 @@ def run_b17(chk, repo):
         env = {'advan': advan, 'trans': trans}
         named = set()
         walk(f.node.body, env, named)
-        need = [p for p in spec[advan][trans]['params'] if p != 'K']
+        need = list(spec[advan][trans]['params'])
         missing = [p for p in need if p not in named]
         chk.instance(B17, f'{advan} {trans}: reads {need}; named in the branch taken: {sorted(set(need) & named)}')
         if missing:
@@ -735,3 +735,55 @@ def run_b17(chk, repo):
                           line=f.node.lineno,
                           witness='a TRANS1 model (K, V) that gets a peripheral compartment: $SUBROUTINE ADVAN3 TRANS1 with '
                                   'KCP1/KPC1 defined but not K12/K21 (findings/C02_trans1_peripheral_rates_demo.py)')
+
+
+def run_b18(chk, repo):
+    """TRANS4 (CL, V1, Q, V2: every rate a ratio of two PK parameters) is chosen for a model without TRANS only after the
+    distribution rates were looked at, not on the elimination rate alone"""
+    B18 = chk.rule('B18', 'new_advan_trans: without an old TRANS, TRANS4 is selected only under a test that reads the flows '
+                          'between the central and the peripheral compartments', floor=1)
+    um = repo.module(f'{NM}.update')
+    f = um.functions.get('new_advan_trans')
+    if f is None:
+        raise AnalysisError('new_advan_trans not found')
+    cfg = CFG(f.node)
+    t4 = [n for n in cfg.nodes.values() if n.kind == 'stmt' and isinstance(n.ast, ast.Assign)
+          and unparse(n.ast.targets[0]) == 'trans' and isinstance(n.ast.value, ast.Constant) and n.ast.value.value == 'TRANS4']
+    # those on the `oldtrans is None` path
+    from sa import guards as G_
+
+    def no_old(e):
+        if isinstance(e, ast.Compare) and len(e.ops) == 1 and unparse(e.left) == 'oldtrans' \
+                and isinstance(e.comparators[0], ast.Constant) and e.comparators[0].value is None:
+            return isinstance(e.ops[0], ast.Is) if isinstance(e.ops[0], (ast.Is, ast.IsNot)) else None
+        return None
+    sites = [n for n in t4 if G_.guarded(cfg, n.id, no_old)]
+    if not sites:
+        raise AnalysisError('B18: TRANS4 selection for a model without TRANS not found in new_advan_trans')
+
+    def reads_distribution(e, depth=2):
+        txt = unparse(e)
+        if 'find_peripheral_compartments' in txt:
+            return True
+        for c in [x for x in ast.walk(e) if isinstance(x, ast.Call)]:
+            if isinstance(c.func, ast.Attribute) and c.func.attr == 'get_flow' and len(c.args) == 2 \
+                    and unparse(c.args[1]) != 'output':
+                return True
+            g = um.functions.get(dotted(c.func) or '')
+            if g is not None and depth > 0 and any(reads_distribution(s_, depth - 1) for s_ in g.node.body):
+                return True
+        return False
+    for n in sites:
+        doms = [t for t in cfg.nodes.values() if t.kind == 'test' and t.ast is not None
+                and any(cfg.edge_dominates(t.id, lab, n.id) for lab in ('true', 'false'))]
+        ok = any(reads_distribution(t.ast) for t in doms)
+        chk.instance(B18, f'trans = TRANS4 (no old TRANS) under {[t.text()[:50] for t in doms]}: reads distribution rates {ok}')
+        if not ok:
+            chk.violation(B18, um.rel, f.qualname, "trans = 'TRANS4' decided on the elimination rate only",
+                          'TRANS4 defines K12 = Q/V1 and K21 = Q/V2; the writer takes Q and V2 from one flow and assumes the '
+                          'other, so a model whose distribution rates are plain rate constants (K12, K21) is written with '
+                          'another K12 than it has (and the integer 1 of the missing denominator is substituted everywhere)',
+                          line=n.line,
+                          witness='an ADVAN3 TRANS1 model (K12, K21 thetas) -> set_michaelis_menten_elimination -> '
+                                  'set_first_order_elimination: $SUBROUTINE ADVAN3 TRANS4 with Q = K21, V2 = 1, V1 = VC: '
+                                  'NONMEM computes K12 = K21/VC (findings/C02_trans4_needs_ratio_rates_demo.py)')
